@@ -1336,7 +1336,7 @@ def run(ctx):
     for widths, label in tables:
         cases = []
         cases += gen_exhaustive_edges(widths) if (label == "corpus" or thorough or rng.random() < 0.3) else []
-        cases += gen_record_cases(rng, widths, (60 if label == "corpus" else 25) if thorough else (40 if label == "corpus" else 14), not thorough)
+        cases += gen_record_cases(rng, widths, (60 if label == "corpus" else 25) if thorough else (34 if label == "corpus" else 12), not thorough)
         cases += gen_pixel_cases(rng, widths, 8 if thorough else 3)
         cases += gen_cli_cases(rng, widths, (8 if thorough else 4) if label == "corpus" else (2 if thorough else 1))
         if label == "corpus" or thorough:
